@@ -52,6 +52,8 @@ type vpWorld struct {
 	gauge    string         // gauge to watch (C20)
 	g0, gmin int
 	wrote    []int // number of packets on the wire after each handler invocation
+	restarts []bool
+	setup    int // number of leading invocations that follow a fixed script (reply + continuation)
 }
 
 func newVPWorld(conn *vpConn) *vpWorld {
@@ -96,11 +98,27 @@ func (h *vpHandler) Handle(resp Response, req Request) {
 	} else {
 		vpAssert(h.id == 0, "C08.dispatch-to-initial-handler")
 	}
+	w.conn.log.add("handle")
 	w.invokes = append(w.invokes, vpInvoke{hid: h.id, sid: sid, seq: seq, typ: uint8(req.Header.Type)})
 	before := len(w.conn.out)
 	// ---- reply
 	restart := false
 	var body EncoderDecoder
+	if w.setup > 0 {
+		// scripted prefix: one reply, continuation registered, no choices
+		w.setup--
+		resp.Reply(NewAuthenReply(SetAuthenReplyStatus(AuthenStatusGetUser), SetAuthenReplyServerMsg("m")))
+		w.replies++
+		w.wrote = append(w.wrote, len(w.conn.out)-before)
+		w.restarts = append(w.restarts, false)
+		n := &vpHandler{w: w, id: w.nextID}
+		w.nextID++
+		resp.Next(n)
+		w.nextHid[sid] = n.id
+		w.maxSeq[sid] = seq + 1
+		w.sample()
+		return
+	}
 	switch vpInt(0, 2) {
 	case 0:
 		st := AuthenStatus(vpInt(1, 7))
@@ -117,6 +135,7 @@ func (h *vpHandler) Handle(resp Response, req Request) {
 	resp.Reply(body)
 	w.replies++
 	w.wrote = append(w.wrote, len(w.conn.out)-before)
+	w.restarts = append(w.restarts, restart)
 	sent := seq + 1
 	if restart {
 		sent = 1
